@@ -1,5 +1,7 @@
 package scanner
 
+import "sort"
+
 type NewLines struct {
 	data []int
 }
@@ -11,6 +13,12 @@ func (nl *NewLines) Append(p int) {
 }
 
 func (nl *NewLines) GetLine(p int) int {
+	// far behind the last known line start (the scanner has looked ahead over many lines, e.g. for the end of a comment
+	// that is never closed): search instead of walking back over every later line start for every token
+	if n := len(nl.data); n > 16 && p < nl.data[n-16] {
+		return sort.Search(n, func(i int) bool { return p < nl.data[i] }) + 1
+	}
+
 	line := len(nl.data) + 1
 
 	for i := len(nl.data) - 1; i >= 0; i-- {
